@@ -398,6 +398,46 @@ pub fn check_program(ctx: &Ctx, nodes: &[Node], tag: &str) {
     }
 }
 
+/// The same program with runs of its lines moved into argument-less macros must give the same images.
+pub fn check_wrapped(ctx: &Ctx, nodes: &[Node], rng: &mut Rng, prefix: &str) {
+    let wrapped = ir::wrap_in_macros(nodes, rng, 3);
+    if wrapped == nodes {
+        return;
+    }
+    let reference = layout::assemble(&layout::single(nodes.to_vec()));
+    let Ok(r) = reference else { return };
+    let src = ir::print_canonical(&wrapped);
+    let out = fw::build_str(&src);
+    ctx.eval(1);
+    ctx.count("programs_rebuilt_with_runs_moved_into_macros", 1);
+    // what does the first macro body start / end with? (signature)
+    let shape = wrapped
+        .iter()
+        .find_map(|n| if let Node::MacroDef { body, .. } = n { Some(body) } else { None })
+        .map(|b| {
+            let first = match b.first() {
+                Some(Node::Org(_)) => "starts-with-org",
+                Some(Node::Seg(_)) => "starts-with-segment-switch",
+                _ => "plain-start",
+            };
+            let last = match b.last() {
+                Some(Node::Seg(_)) => "ends-with-segment-switch",
+                Some(Node::Org(_)) => "ends-with-org",
+                _ => "plain-end",
+            };
+            format!("{}+{}", first, last)
+        })
+        .unwrap_or_default();
+    let ok = matches!(&out, Outcome::Ok(b) if b.code == r.code && b.eeprom == r.eeprom && b.ram_filling == r.ram_filling);
+    if !ok {
+        ctx.violation(
+            format!("{}/via-macro/{}", prefix, shape),
+            format!("program with runs of lines moved into macros differs from the same program written out: {}", fw::clip(&format!("{:?}", out.brief()), 200)),
+            json!({"source": src, "tag": "valid", "detail": {"expect_code": fw::hex(&r.code, 4096), "expect_eeprom": fw::hex(&r.eeprom, 4096)}, "plain": ir::print_canonical(nodes)}),
+        );
+    }
+}
+
 /// Probes for behaviours the pre-survey flagged (each has its own signature).
 fn probes(ctx: &Ctx) {
     // `.org 0` after code: cannot make the next item land at 0 -> must be an error like any backward .org
@@ -454,11 +494,14 @@ pub fn run(ctx: &Ctx) -> i32 {
             ctx.sample(json!({"program": ir::print_canonical(&p.nodes).lines().collect::<Vec<_>>(), "negative": p.negative}));
         }
         check_program(ctx, &p.nodes, p.negative.unwrap_or("valid"));
+        if p.negative.is_none() && i % 2 == 0 {
+            check_wrapped(ctx, &p.nodes, &mut rng, "layout");
+        }
     });
     probes(ctx);
     fw::finish(
         ctx,
-        "random layout programs: 1-60 items over arbitrarily interleaved .cseg/.dseg/.eseg blocks, one/two-word instructions, .db with odd/even counts and strings, .dw/.dd/.dq, .byte in RAM and EEPROM, own-line and inline labels, `.dd label` tables referencing labels of all segments (forward and backward), forward `.org` (incl. to the current position), devices with RAM start 0x60/0x100/0x200/0x40 (reduced core) and none; 1 in 12 programs carries a backward `.org` (must fail); plus fixed probes for `.org 0`, non-literal .org/.byte operands and .org directly before a segment switch; distinct_nontrivial = distinct program skeletons (sequence of node kinds, segments and sizes)",
+        "random layout programs: 1-60 items over arbitrarily interleaved .cseg/.dseg/.eseg blocks, one/two-word instructions, .db with odd/even counts and strings, .dw/.dd/.dq, .byte in RAM and EEPROM, own-line and inline labels, `.dd label` tables referencing labels of all segments (forward and backward), forward `.org` (incl. to the current position), devices with RAM start 0x60/0x100/0x200/0x40 (reduced core) and none; 1 in 12 programs carries a backward `.org` (must fail); every second valid program is rebuilt with up to three runs of its lines moved into argument-less macros (bodies that start with .org or a segment switch, end with a segment switch, definition before or after the call) and must give the same images; plus fixed probes for `.org 0`, non-literal .org/.byte operands and .org directly before a segment switch; distinct_nontrivial = distinct program skeletons (sequence of node kinds, segments and sizes)",
         &[
             "refmodel/layout.rs + isa.rs; device figures read from DEVICES (C12 checks them against vendor data)",
             "every generated .org is directly followed by an item of the same segment (what a pending .org means across a segment switch is not specified; probed separately)",
